@@ -14,13 +14,23 @@ EntryBytes(R, e) == LET s == R.segs[e.seg] IN
 LineEntries(R, lineOf, L) == SelectSeq(R.srcmap, LAMBDA e : lineOf[e.sid] = L)
 LineBytes(R, lineOf, L) == LET es == LineEntries(R, lineOf, L) IN Concat2([i \in 1..Len(es) |-> EntryBytes(R, es[i])])
 
-(* rows of one source line: chunks of at most bpl bytes, each starting at the address of its first byte *)
-RowsOf(L, bs, bpl) ==
+(* rows of one source line: runs of at most bpl bytes at CONSECUTIVE addresses, each row starting at the address of its first
+   byte (the bytes of a line may lie in several places: a loop body, a macro that emits into two segments) *)
+RECURSIVE Runs(_, _, _)
+Runs(bs, bpl, from) ==          \* <<lo, hi>> index pairs
+  IF from > Len(bs) THEN <<>>
+  ELSE LET F[i \in from..Len(bs)] == IF i < Len(bs) /\ i - from + 1 < bpl /\ bs[i + 1].addr = bs[i].addr + 1 THEN F[i + 1] ELSE i
+           hi == F[from] IN
+       <<<<from, hi>>>> \o Runs(bs, bpl, hi + 1)
+(* the chunking before the repair of the listing rows: bpl bytes per row whatever their addresses *)
+ByCount(bs, bpl) == [c \in 1..((Len(bs) + bpl - 1) \div bpl) |-> <<(c - 1) * bpl + 1, IF c * bpl < Len(bs) THEN c * bpl ELSE Len(bs)>>]
+RowsWith(L, bs, chunks) ==
   IF bs = <<>> THEN <<[line |-> L, hasAddr |-> FALSE, addr |-> 0, bytes |-> <<>>, src |-> TRUE]>>
-  ELSE [c \in 1..((Len(bs) + bpl - 1) \div bpl) |->
-          LET lo == (c - 1) * bpl + 1
-              hi == IF c * bpl < Len(bs) THEN c * bpl ELSE Len(bs) IN
+  ELSE [c \in 1..Len(chunks) |->
+          LET lo == chunks[c][1]
+              hi == chunks[c][2] IN
           [line |-> L, hasAddr |-> TRUE, addr |-> bs[lo].addr, bytes |-> [i \in 1..(hi - lo + 1) |-> bs[lo + i - 1].b], src |-> c = 1]]
+RowsOf(L, bs, bpl) == RowsWith(L, bs, Runs(bs, bpl, 1))
 Listing(R, lineOf, nlines, bpl) == Concat2([L \in 1..nlines |-> RowsOf(L, LineBytes(R, lineOf, L), bpl)])
 
 (* The implementation-shaped listing: the bytes of an entry are looked up by *address*: the first segment (in
